@@ -276,8 +276,8 @@ def capacity(P, name, day):
 
 def run_calc(P, w):
     """Runs calc under the symbolic clock.  Returns (schedule | None, exception | None)."""
-    res = make_resources(P)
     with clock_and_dates(P.clock):
+        res = make_resources(P)  # inside: DirectCalendar normalises its keys with the module's datetime
         try:
             if P.backward:
                 s = BackwardScheduler(end=P.start, resources=res, balance_resources=P.balance,
@@ -438,3 +438,40 @@ def standard_harnesses(h, tier, forward=True, backward=True):
             for k, v in BWD_THOROUGH_PROFILES.items():
                 out.append({'name': 'backward-' + k, 'fn': h, 'cfg': dict(v, backward=True)})
     return out
+
+
+# ---------------------------------------------------------------------------
+# helpers for the tightness oracles (C08, C09)
+
+def hours_td(share24):
+    """timedelta(hours=share24) in the current mode."""
+    if is_native():
+        return _real.timedelta(hours=float(share24))
+    from symx.xdt import XTimeDelta
+    return XTimeDelta(hours=share24)
+
+
+def approx_eq(a, b):
+    """Exact in the model; +-1 microsecond when replayed with binary64 floats."""
+    if is_native():
+        return abs((a - b).total_seconds()) <= 1.5e-6
+    d = (a.o - b.o) * DAY_US + a.us - b.us   # the model demands <= 2 us so that counterexamples survive float replay
+    return And(d <= 2, d >= -2)
+
+
+def row_index(V):
+    """Position of every usage row in reservation order."""
+    return {id(r): k for k, r in enumerate(V.rows)}
+
+
+def booked(V, P, name, day, upto_index=None, include=True):
+    """Units booked on (resource name, day) by rows up to (and including) position upto_index."""
+    tot = 0
+    ix = {id(t): i for i, t in enumerate(V.t)}
+    for k, r in enumerate(V.rows):
+        if upto_index is not None and (k > upto_index or (k == upto_index and not include)):
+            break
+        i = ix.get(id(r.task))
+        if i is not None and P.res[i] == name and day_of(r.date) == day:
+            tot = tot + r.units
+    return tot
